@@ -51,6 +51,12 @@ void harness(void)
 	text = exh_text();
 	c = symx_u8("cmd");
 	symx_assume(c < NCMDS);
+#ifdef CMDMASK
+	symx_assume((CMDMASK >> c) & 1);
+#endif
+#ifdef SHAPEMASK
+	symx_assume((SHAPEMASK >> shape) & 1);
+#endif
 	c = symx_conc(c);
 	own = c <= 1 || c == 4 || c == 5;
 	force = c == 1 || c == 3 || c == 6;
@@ -66,6 +72,16 @@ void harness(void)
 		ff = env_find("f");
 		env_fs[ff].mtime = ++env_clock + 100;
 		memcpy(env_fs[ff].data, "XX", n >= 2 ? 2 : 0);
+	}
+	/* an earlier successful write to some other path must not disarm the guards */
+	{
+		int pre = symx_u8("pre");
+		symx_assume(pre < 3);
+		pre = symx_conc(pre);
+		if (pre == 1)
+			symx_assert(exh_cmd("w! q") == 0, "write to another path succeeds");
+		if (pre == 2 && lbuf_len(xb) >= 2)
+			symx_assert(exh_cmd("1,2w! q") == 0, "partial write to another path succeeds");
 	}
 	ff = env_find("f");
 	memcpy(filebuf, env_fs[ff].data, env_fs[ff].len);	/* disk image before the command */
